@@ -280,6 +280,7 @@ type c05Probe struct {
 	checkedLoads, loadsOverContent, remarshals, builds int64
 	shape                                              []string
 	failedLoads, legacyLoads, poisoned                 int64
+	inconclusive                                       string
 	diskChunks                                         int64
 }
 
@@ -330,6 +331,21 @@ func (c *C05Scn) lifecycle(y func(), pr *c05Probe) (outs []string, viol *Violati
 		n, _ := withStepCap(cap, f)
 		return n
 	}
+	// refCall runs a REFERENCE execution under an absolute budget. A reference
+	// that exhausts its budget says nothing: the run is abandoned as
+	// inconclusive (never a verdict).
+	const refBudget = 6_000_000_000
+	refCall := func(f func()) (int64, bool) {
+		if y != nil {
+			f()
+			return 0, true
+		}
+		n, capped := withStepCap(refBudget, f)
+		if capped {
+			pr.inconclusive = "reference_execution_exceeded_step_budget"
+		}
+		return n, !capped
+	}
 	n := len(c.Inputs)
 	src := make([]*trie.SlimTrie, n)
 	streams := make([][]byte, n)
@@ -341,7 +357,10 @@ func (c *C05Scn) lifecycle(y func(), pr *c05Probe) (outs []string, viol *Violati
 		sp := &c.Inputs[i]
 		var t0 *trie.SlimTrie
 		var err0 error
-		buildSteps := capCall(2_000_000_000, func() { t0, err0 = buildWithPerm(sp, 0, pr) })
+		buildSteps, okRef := refCall(func() { t0, err0 = buildWithPerm(sp, 0, pr) })
+		if !okRef {
+			return outs, nil
+		}
 		yield()
 		var b0 []byte
 		if err0 == nil {
@@ -382,9 +401,14 @@ func (c *C05Scn) lifecycle(y func(), pr *c05Probe) (outs []string, viol *Violati
 			f0 := fresh(sp.Enc)
 			var e0 error
 			var p0 string
-			refLoad[i], _ = withStepCap(refLoadCap, func() { e0, p0 = loadVia(f0, "direct", append([]byte{}, b0...)) })
+			// a load cannot legitimately cost more than ten builds of the same trie
+			freshCap := int64(refLoadCap)
+			if 10*buildSteps > freshCap {
+				freshCap = 10 * buildSteps
+			}
+			refLoad[i], _ = withStepCap(freshCap, func() { e0, p0 = loadVia(f0, "direct", append([]byte{}, b0...)) })
 			if p0 == panStepCap {
-				fail("load-does-not-return", "load-into-fresh", fmt.Sprintf("input %d (%s): loading Marshal() output into a fresh instance did not return within %d steps", i, sp.summary(), int64(refLoadCap)), "", "")
+				fail("load-does-not-return", "load-into-fresh", fmt.Sprintf("input %d (%s): loading Marshal() output into a fresh instance did not return within %d steps (building the trie took %d)", i, sp.summary(), freshCap, buildSteps), "", "")
 			} else if e0 != nil || p0 != "" {
 				fail("load-failed", "Unmarshal-into-fresh", fmt.Sprintf("input %d (%s): a stream produced by Marshal() does not load into a fresh instance: err=%v panic=%s", i, sp.summary(), e0, p0), "", "")
 			}
@@ -401,7 +425,10 @@ func (c *C05Scn) lifecycle(y func(), pr *c05Probe) (outs []string, viol *Violati
 			pr.builds++
 			var t1 *trie.SlimTrie
 			var err1 error
-			capCall(2_000_000_000, func() { t1, err1 = buildWithPerm(&c.Inputs[0], 0, pr) })
+			_, okRef := refCall(func() { t1, err1 = buildWithPerm(&c.Inputs[0], 0, pr) })
+			if !okRef {
+				return outs, nil
+			}
 			var b1 []byte
 			if err1 == nil {
 				b1, err1 = safeMarshal(t1)
@@ -521,7 +548,10 @@ func (c *C05Scn) lifecycle(y func(), pr *c05Probe) (outs []string, viol *Violati
 			yield()
 			sp := &c.Inputs[i]
 			var want, got string
-			wantSteps := capCall(2_000_000_000, func() { want = battery(src[i], c.Queries[i], sp.Enc, sp.ValIDs != nil, sp.complete(), y) })
+			wantSteps, okRef := refCall(func() { want = battery(src[i], c.Queries[i], sp.Enc, sp.ValIDs != nil, sp.complete(), y) })
+			if !okRef {
+				return outs, nil
+			}
 			capCall(loadCap(wantSteps), func() { got = battery(inst, c.Queries[i], sp.Enc, sp.ValIDs != nil, sp.complete(), y) })
 			if want != got {
 				oracle, where := "roundtrip-answers-differ", "load-into-"+holdsKind(holds, i)
@@ -594,6 +624,10 @@ func executeC05(scn *Scenario) *RunResult {
 	stop := countHook()
 	outs, viol := c.lifecycle(nil, pr)
 	res.Steps = stop()
+	if pr.inconclusive != "" {
+		res.Skipped = pr.inconclusive
+		return res
+	}
 
 	if viol == nil && c.Twin && res.Steps < 4_000_000 {
 		// two independent lifecycles on disjoint instances as two tasks under
